@@ -217,12 +217,32 @@ def mont_struct_scalar(rng):
             return w * RINV % L
 
 
+def mont_edge_scalar(rng):
+    """a scalar whose Montgomery-domain representative w = value * 2^256 mod l sits at an edge of [0, l):
+    next to 0, next to l, or in the top window [2^252, l) (where w is reduced but has bit 252 set)"""
+    c = rng.randrange(5)
+    top = L - 2**252
+    if c == 0:
+        w = rng.randrange(0, 2**16)
+    elif c == 1:
+        w = L - 1 - rng.randrange(0, 2**16)
+    elif c == 2:
+        w = 2**252 + rng.randrange(0, top)
+    elif c == 3:
+        w = 2**252 + rng.choice([0, 1, 2, top - 1, top - 2, rng.randrange(2**64)])
+    else:
+        w = 2**252 - 1 - rng.randrange(0, 2**16)
+    return w * RINV % L
+
+
 def scalar_val(rng):
-    c = rng.randrange(10)
+    c = rng.randrange(12)
     if c < 6:
         return rnd_scalar(rng)
     if c < 8:
         return mont_struct_scalar(rng)
+    if c < 10:
+        return mont_edge_scalar(rng)
     return rng.randrange(L)
 
 
@@ -290,6 +310,28 @@ def suite_C01(g, tier):
                         sregs[1] = sregs[0]
                     p.op(alg, r=r, ss=sregs, ps=pregs)
                     p.op("Point.Bytes", r=r, o=["b0"])
+    # every small-order point (and a mixed-order one) x small scalars x every algorithm, second scalar 0 / 1 / random
+    smalls = [0, 1, 2, 3, 4, 5, 6, 7, 8, 9, 12, 16, 17, 24, 40, 64]
+    if tier == "quick":
+        smalls = [0, 2, 4, 8, 16, 40] + rng.sample([1, 3, 5, 6, 7, 9, 12, 17, 24, 64], 2)
+    bases = list(TORS_PTS) + [padd(BPT, TORS_PTS[4]), padd(rand_point(rng), TORS_PTS[1])]
+    for A in bases:
+        p = g.new("C01 small scalars on a point with a small-order component")
+        load_point(p, "p1", A, rng, rng.choice(["bytes", "ext-lam"]))
+        p.scalar_canon("s1", 0)
+        p.scalar_canon("s2", 1)
+        load_scalar(p, "s3", scalar_val(rng), rng, "canon")
+        for a in smalls:
+            p.scalar_canon("s0", a)
+            r = rng.choice(["p0", "p2", "p3"])
+            p.op("Point.VarTimeDoubleScalarBaseMult", r=r, a=["s0", "p1", "s1"])
+            p.op("Point.VarTimeDoubleScalarBaseMult", r=r, a=["s0", "p1", rng.choice(["s2", "s3"])])
+            p.op("Point.ScalarMult", r=r, a=["s0", "p1"])
+            p.op("Point.VarTimeMultiScalarMult", r=r, ss=["s0"], ps=["p1"])
+            p.op("Point.MultiScalarMult", r=r, ss=["s0", "s1"], ps=["p1", "p1"])
+            if a % 3 == 0:
+                p.op("Point.VarTimeMultiScalarMult", r=r, ss=["s0", "s3", "s0"], ps=["p1", "p1", "p1"])
+                p.op("Point.Bytes", r=r, o=["b0"])
     # eight terms through six registers (repeated pointers)
     for alg in ["Point.MultiScalarMult", "Point.VarTimeMultiScalarMult"]:
         p = g.new("C01 %s n=8" % alg)
@@ -345,6 +387,8 @@ def suite_C02(g, tier):
                 p.op("Point.Negate", r="p4", a=["p3"])
                 p.op("Point.Add", r="p4", a=["p4", "p3"])
                 p.op("Point.Bytes", r="p4", o=["b1"])
+        if it == 0:
+            stale_state_programs(g, tier, "C02")
         for op in ["Point.Negate", "Point.MultByCofactor"]:
             for r in ["p0", "p2"]:
                 p = g.new("C02 %s %s" % (op, r))
@@ -354,6 +398,63 @@ def suite_C02(g, tier):
                 p.op(op, r=r, a=["p0"])
                 p.op("Point.Bytes", r=r, o=["b0"])
                 p.op(op, r=r, a=[r])
+
+
+def stale_state_programs(g, tier, tag):
+    """use V as an operand in every role, overwrite V through every writer, use it again in every role"""
+    rng = g.rng
+    writers = ["Point.Negate.self", "Point.Negate.other", "Point.Set", "Point.SetBytes", "Point.SetExtendedCoordinates", "Point.Add",
+               "Point.Subtract", "Point.MultByCofactor", "Point.ScalarMult", "Point.ScalarBaseMult", "Point.MultiScalarMult",
+               "Point.VarTimeMultiScalarMult", "Point.VarTimeDoubleScalarBaseMult", "Point.SetBytes.bad", "Point.SetExtendedCoordinates.bad"]
+    reps = 1 if tier == "quick" else 4
+    for _ in range(reps):
+        for w in writers:
+            p = g.new("%s use / overwrite by %s / use again" % (tag, w))
+            load_point(p, "p0", any_point(rng), rng)          # V
+            load_point(p, "p1", any_point(rng), rng)          # P
+            load_point(p, "p2", any_point(rng), rng)          # other
+            load_scalar(p, "s0", scalar_val(rng), rng)
+            def uses():
+                p.op("Point.Add", r="p3", a=["p1", "p0"])     # V on the cached side
+                p.op("Point.Subtract", r="p4", a=["p1", "p0"])
+                p.op("Point.Add", r="p3", a=["p0", "p1"])
+                p.op("Point.ScalarMult", r="p4", a=["s0", "p0"])
+                p.op("Point.VarTimeMultiScalarMult", r="p4", ss=["s0"], ps=["p0"])
+                p.op("Point.Bytes", r="p0", o=["b0"])
+                p.op("Point.BytesMontgomery", r="p0", o=["b1"])
+                p.op("Point.Equal", r="p0", a=["p1"])
+            uses()
+            if w == "Point.Negate.self":
+                p.op("Point.Negate", r="p0", a=["p0"])
+            elif w == "Point.Negate.other":
+                p.op("Point.Negate", r="p0", a=["p2"])
+            elif w == "Point.Set":
+                p.op("Point.Set", r="p0", a=["p2"])
+            elif w == "Point.SetBytes":
+                p.op("Point.Bytes", r="p2", o=["b2"])
+                p.op("Point.SetBytes", r="p0", a=["b2"])
+            elif w == "Point.SetBytes.bad":
+                p.buf("b2", bytes(rng.randrange(256) for _ in range(rng.choice([0, 31, 33]))))
+                p.op("Point.SetBytes", r="p0", a=["b2"])
+            elif w in ("Point.SetExtendedCoordinates", "Point.SetExtendedCoordinates.bad"):
+                p.op("Point.ExtendedCoordinates", r="p2", o=["e0", "e1", "e2", "e3"])
+                if w.endswith(".bad"):
+                    p.op("Elem.One", r="e4")
+                    p.op("Elem.Add", r="e3", a=["e3", "e4"])
+                p.op("Point.SetExtendedCoordinates", r="p0", a=["e0", "e1", "e2", "e3"])
+            elif w in ("Point.Add", "Point.Subtract"):
+                p.op(w, r="p0", a=rng.choice([["p0", "p2"], ["p2", "p0"], ["p2", "p1"], ["p0", "p0"]]))
+            elif w == "Point.MultByCofactor":
+                p.op(w, r="p0", a=[rng.choice(["p0", "p2"])])
+            elif w == "Point.ScalarMult":
+                p.op(w, r="p0", a=["s0", rng.choice(["p0", "p2"])])
+            elif w == "Point.ScalarBaseMult":
+                p.op(w, r="p0", a=["s0"])
+            elif w == "Point.VarTimeDoubleScalarBaseMult":
+                p.op(w, r="p0", a=["s0", rng.choice(["p0", "p2"]), "s0"])
+            else:
+                p.op(w, r="p0", ss=["s0", "s0"], ps=[rng.choice(["p0", "p2"]), "p1"])
+            uses()
 
 
 def suite_C04(g, tier):
@@ -571,6 +672,51 @@ def suite_C07(g, tier):
         p.op("Scalar.Bytes", r="s3", o=["b0"])
         if it % 4 == 0:
             p.op("Scalar.Invert", r=rng.choice(["s3", "s1"]), a=["s1"])
+        # result-directed product: x * y = R for a result R at an edge of the Montgomery range
+        R = rng.choice([mont_edge_scalar(rng), mont_struct_scalar(rng)])
+        xv = scalar_val(rng) or 1
+        load_scalar(p, "s4", xv, rng, "canon")
+        load_scalar(p, "s5", R * pow(xv, L - 2, L) % L, rng, "canon")
+        p.op("Scalar.Multiply", r="s3", a=rng.choice([["s4", "s5"], ["s5", "s4"]]))
+        p.op("Scalar.MultiplyAdd", r="s2", a=["s4", "s5", rng.choice(["s2", "s0"])])
+        # the same value in whatever representation an operation left it and freshly decoded: Equal both ways
+        for r in ("s3", "s2"):
+            p.op("Scalar.Bytes", r=r, o=["b1"])
+            p.op("Scalar.SetCanonicalBytes", r="s5", a=["b1"])
+            p.op("Scalar.Equal", r=r, a=["s5"])
+            p.op("Scalar.Equal", r="s5", a=[r])
+    # operations that produce zero, then comparisons and further arithmetic on the result
+    for zsrc in ["neg0", "sub", "mul0", "inv0", "new", "madd"]:
+        p = g.new("C07 zero produced by %s" % zsrc)
+        load_scalar(p, "s0", scalar_val(rng) or 5, rng, "canon")
+        p.scalar_canon("s1", 0)
+        if zsrc == "neg0":
+            p.op("Scalar.Negate", r="s2", a=["s1"])
+        elif zsrc == "sub":
+            p.op("Scalar.Subtract", r="s2", a=["s0", "s0"])
+        elif zsrc == "mul0":
+            p.op("Scalar.Multiply", r="s2", a=["s0", "s1"])
+        elif zsrc == "inv0":
+            p.op("Scalar.Invert", r="s2", a=["s1"])
+        elif zsrc == "new":
+            p.op("NewScalar", o=["s2"])
+        else:
+            p.op("Scalar.Negate", r="s3", a=["s0"])
+            p.op("Scalar.MultiplyAdd", r="s2", a=["s0", "s0", "s3"])
+            p.op("Scalar.Multiply", r="s3", a=["s0", "s0"])
+            p.op("Scalar.Subtract", r="s2", a=["s3", "s3"])
+        for a, b in [("s2", "s1"), ("s1", "s2"), ("s2", "s2")]:
+            p.op("Scalar.Equal", r=a, a=[b])
+        p.op("Scalar.Negate", r="s3", a=["s2"])
+        p.op("Scalar.Equal", r="s3", a=["s1"])
+        p.op("Scalar.Equal", r="s1", a=["s3"])
+        p.op("Scalar.Add", r="s4", a=["s3", "s3"])
+        p.op("Scalar.Equal", r="s4", a=["s1"])
+        p.op("Scalar.Subtract", r="s4", a=["s3", "s1"])
+        p.op("Scalar.Equal", r="s1", a=["s4"])
+        p.op("Scalar.Bytes", r="s3", o=["b0"])
+        p.op("Point.ScalarBaseMult", r="p0", a=["s3"])
+        p.op("Point.Bytes", r="p0", o=["b1"])
     p = g.new("C07 zero value")
     p.op("NewScalar", o=["s0"])
     p.op("Scalar.Bytes", r="s0", o=["b0"])
@@ -1104,6 +1250,7 @@ def suite_C12(g, tier):
         for r in live:
             p.op("Point.Bytes", r=r, o=["b2"])
             p.op("Point.Equal", r=r, a=[live[0]])
+    stale_state_programs(g, tier, "C12")
     # degenerate imports (also C13)
     suite_C13(g, tier, only_degenerate=True)
 
